@@ -6,7 +6,7 @@ from __future__ import annotations
 
 import numpy as np
 
-from gmat import gmat, judge, run_solver
+from gmat import subblock_has_near_unit_eigenvalue, gmat, judge, run_solver
 
 UNITS = ["EigStruct"]
 PROPS = ["props/C15.v"]
@@ -43,7 +43,7 @@ def check(ctx):
             ok, msg = judge(E, M)
             if not ok:
                 key = f"C15/oracle/{name}{'' if target is None else '-subblocks'}/{kind.split('[')[0]}"
-                if msg.startswith("NEAR-UNIT") and name == "large" and target is not None:
+                if msg.startswith("NEAR-UNIT") and name == "large" and target is not None and subblock_has_near_unit_eigenvalue(M, target):
                     # right number of columns, span off by < 1e-2: a principal sub-block has an eigenvalue within np.isclose's
                     # default rtol=1e-5 of one, which eigh_projector accepts as a unit eigenvalue (known finding)
                     key = "C15/large-subblocks/isclose-rtol"
